@@ -6,7 +6,7 @@ use crate::dynq::{new_queue, DynQueue};
 use crate::hal::{Dir, HalEv, Kind};
 use crate::ring::{Chain, RefQueue};
 use crate::runner::{guard, Caught, Sig, Stats};
-use crate::world::{self, with, DeviceModel, HookAction, World};
+use crate::world::{self, with, DeviceModel, Escape, HookAction, World};
 use proptest::prelude::*;
 use serde::{Deserialize, Serialize};
 use serde_json::json;
@@ -42,6 +42,11 @@ pub enum Op {
     AddFill { extra: i8, wr: u16 },
     /// Submit a chain whose buffer count sits on a boundary: see `boundary_count`.
     AddBoundary(u8),
+    /// `add_notify_wait_pop` while the completion that reaches the front of the used ring first
+    /// belongs to *another* outstanding chain (already pending, or completed by the device during
+    /// the wait): the helper must report a wrong token and change nothing else. (The ordinary case,
+    /// the own chain completing first, is C05's co-simulation.)
+    Blocking { ins: Vec<u32>, outs: Vec<u32>, pick: u16 },
     /// Submit `nb` (2..) one-byte buffers while the heap cannot supply the indirect table (the
     /// allocation of exactly 16*nb bytes, 16-aligned, fails once).
     AddNoHeap(u8),
@@ -133,6 +138,9 @@ pub struct Shadow {
     pub viol: Option<Viol>,
     pub enabled: bool,
     pub idx_moves_in_call: u32,
+    /// while a blocking helper runs: (head to complete at the first spin, device's used index, done, spins after done)
+    pub spin_plan: Option<(u16, u16, bool, u32)>,
+    pub idle_spins: u32,
 }
 
 struct QhModel(Rc<RefCell<Shadow>>);
@@ -261,8 +269,33 @@ impl DeviceModel for QhModel {
     fn on_point(&mut self, w: &mut World, p: Point) -> HookAction {
         if !matches!(p, Point::Spin(_)) {
             self.0.borrow_mut().observe(w, p);
+            return HookAction::Continue;
         }
-        HookAction::Continue
+        // the driver waits for the device: carry out the planned completion, once
+        let mut sh = self.0.borrow_mut();
+        match sh.spin_plan {
+            Some((head, used_idx, false, _)) => {
+                let mut r = sh.rq.clone();
+                r.used_idx = used_idx;
+                let _ = r.push_used(&w.hal, head as u32, 0);
+                sh.spin_plan = Some((head, used_idx, true, 0));
+                HookAction::Continue
+            }
+            Some((head, used_idx, true, k)) => {
+                if k > 8 {
+                    return HookAction::Unwind(Escape::Starved("add_notify_wait_pop keeps waiting although a completion is in the used ring".into()));
+                }
+                sh.spin_plan = Some((head, used_idx, true, k + 1));
+                HookAction::Continue
+            }
+            None => {
+                sh.idle_spins += 1;
+                if sh.idle_spins > 8 {
+                    return HookAction::Unwind(Escape::Starved("the driver waits although nothing is planned to complete".into()));
+                }
+                HookAction::Continue
+            }
+        }
     }
 }
 
@@ -284,6 +317,7 @@ pub struct Flags {
     pub followed_capacity_deviation: bool,
     pub heap_failures: u32,
     pub huge_buffer: bool,
+    pub blocking_with_other_first: u32,
 }
 
 pub struct Eng {
@@ -330,6 +364,7 @@ impl Eng {
             w.dev.legacy = cfg.legacy;
             w.dev.default_max = 65536;
             w.dev.status = 0xf; // raw queue use: pretend initialised
+            w.spin_limit = 10_000;
             w.dev.log_events = false;
             if cfg.legacy {
                 w.hal.next_dma = 0x0000_0000_4000_0000;
@@ -362,12 +397,15 @@ impl Eng {
             viol: None,
             enabled: observe,
             idx_moves_in_call: 0,
+            spin_plan: None,
+            idle_spins: 0,
         }));
         if observe {
             let snap = with(|w| shadow.borrow().snapshot(w)).map_err(|m| v("C04", m))?;
             shadow.borrow_mut().prev = snap;
-            world::set_model(Box::new(QhModel(shadow.clone())));
         }
+        // (store points are only examined when `enabled`; spins are always served)
+        world::set_model(Box::new(QhModel(shadow.clone())));
         let ring_model = vec![0u16; n];
         Ok(Eng {
             q: Some(q),
@@ -406,6 +444,7 @@ impl Eng {
                 followed_capacity_deviation: false,
                 heap_failures: 0,
                 huge_buffer: false,
+                blocking_with_other_first: 0,
                 max_out: 0,
                 c05_checks: 0,
             },
@@ -486,6 +525,12 @@ impl Eng {
 
     /// Submit a chain with the given buffer lengths. Returns whether it was accepted.
     pub fn add(&mut self, in_lens: &[u32], out_lens: &[u32]) -> R<bool> {
+        self.add_mode(in_lens, out_lens, None)
+    }
+
+    /// `blocking`: None = plain `add`; Some(plan) = through `add_notify_wait_pop`, with `plan` the
+    /// outstanding chain the device completes during the wait (None: a completion is pending already).
+    pub fn add_mode(&mut self, in_lens: &[u32], out_lens: &[u32], blocking: Option<Option<u16>>) -> R<bool> {
         self.adds += 1;
         let order = self.adds;
         let sentinel = 0x40 | (order as u8 & 0x3f);
@@ -525,19 +570,86 @@ impl Eng {
         let mut out_sl: Vec<&mut [u8]> =
             outs.iter_mut().map(|b| unsafe { std::slice::from_raw_parts_mut(b.as_mut_ptr(), b.len()) }).collect();
         let q = self.q.as_mut().unwrap();
-        let res = match guard(|| unsafe { q.add(&in_sl, &mut out_sl) }) {
-            Caught::Ok(r) => r,
-            Caught::Panic(p) => {
-                if self.no_heap {
-                    // heap exhaustion was injected: a panic is a legitimate way to report it
-                    return Err(v("HEAP", p.render()));
+        let res = match blocking {
+            None => match guard(|| unsafe { q.add(&in_sl, &mut out_sl) }) {
+                Caught::Ok(r) => r,
+                Caught::Panic(p) => {
+                    if self.no_heap {
+                        // heap exhaustion was injected: a panic is a legitimate way to report it
+                        return Err(v("HEAP", p.render()));
+                    }
+                    return Err(v("C03", format!("add({} in, {} out) with {} descriptors held: {}", ins.len(), outs.len(), self.held, p.render())))
                 }
-                return Err(v("C03", format!("add({} in, {} out) with {} descriptors held: {}", ins.len(), outs.len(), self.held, p.render())))
+                Caught::Escape(e) => return Err(v("C03", format!("{:?}", e))),
+            },
+            Some(plan) => {
+                let front_before = self.used_fifo.front().map(|x| x.0).or(plan);
+                {
+                    let mut sh = self.shadow.borrow_mut();
+                    sh.spin_plan = plan.map(|h| (h, self.rq.used_idx, false, 0));
+                    sh.idle_spins = 0;
+                }
+                with(|w| w.spins = 0);
+                let t = self.t.as_mut().unwrap();
+                let r = {
+                    let in2: Vec<&[u8]> = ins.iter().map(|b| unsafe { std::slice::from_raw_parts(b.as_ptr(), b.len()) }).collect();
+                    let mut out2: Vec<&mut [u8]> = outs.iter_mut().map(|b| unsafe { std::slice::from_raw_parts_mut(b.as_mut_ptr(), b.len()) }).collect();
+                    guard(|| q.add_notify_wait_pop(&in2, &mut out2, t))
+                };
+                let completed = {
+                    let mut sh = self.shadow.borrow_mut();
+                    let done = matches!(sh.spin_plan, Some((_, _, true, _)));
+                    sh.spin_plan = None;
+                    done
+                };
+                if completed {
+                    // the device completed `plan` (0 bytes written) during the wait
+                    let x = plan.unwrap();
+                    self.rq.used_idx = self.rq.used_idx.wrapping_add(1);
+                    if let Some(k) = self.dev_out.iter().position(|t| *t == x) {
+                        self.dev_out.remove(k);
+                    }
+                    if let Some(sub) = self.subs.get_mut(&x) {
+                        sub.written = Some(vec![]);
+                    }
+                    self.used_fifo.push_back((x, 0));
+                    let mut sh = self.shadow.borrow_mut();
+                    if let Some(p) = sh.published.iter().position(|e| e.1 == x) {
+                        sh.published.remove(p);
+                    }
+                }
+                self.flags.blocking_with_other_first += 1;
+                match r {
+                    Caught::Ok(Err(e)) if expect.is_err() => Err(e),
+                    Caught::Ok(Err(Error::WrongToken)) => {
+                        // the submission itself went through: its token is in the ring slot
+                        let slot = with(|w| self.rq.avail_slot(&w.hal, self.avail_idx as u32)).map_err(|m| v("C04", m))?;
+                        Ok(slot)
+                    }
+                    Caught::Ok(other) => {
+                        return Err(v(
+                            "C03",
+                            format!(
+                                "add_notify_wait_pop({} in, {} out) returned {:?} although the completion at the front of the used ring belongs to another chain (token {:?}); expected Err(WrongToken) and no other change",
+                                ins.len(),
+                                outs.len(),
+                                other,
+                                front_before
+                            ),
+                        ))
+                    }
+                    Caught::Panic(p) => return Err(v("C03", format!("add_notify_wait_pop with another chain's completion first: {}", p.render()))),
+                    Caught::Escape(e) => return Err(v("C03", format!("add_notify_wait_pop with another chain's completion first: {:?}", e))),
+                }
             }
-            Caught::Escape(e) => return Err(v("C03", format!("{:?}", e))),
         };
         drop(in_sl);
         drop(out_sl);
+        // the device may look at queue memory right now, between two driver calls
+        if self.shadow.borrow().enabled {
+            let sh = self.shadow.clone();
+            with(|w| sh.borrow_mut().observe(w, Point::Spin(virtio_drivers::verif_hooks::SpinSite::QueueAddNotifyWaitPop)));
+        }
         self.trace_sig.add(1).add(nb as u64).add(res.is_ok() as u64);
         let hal_events: Vec<HalEv> = with(|w| w.hal.log[log0..].to_vec());
         match (&res, &expect) {
@@ -1168,6 +1280,17 @@ impl Eng {
                 let outs = vec![1u32; nb / 3];
                 self.add(&ins, &outs)?;
             }
+            Op::Blocking { ins, outs, pick } => {
+                self.fetch()?;
+                let plan = if !self.used_fifo.is_empty() {
+                    None
+                } else if !self.dev_out.is_empty() {
+                    Some(self.dev_out[(*pick as usize * self.dev_out.len()) >> 16])
+                } else {
+                    return Ok(()); // the own chain would complete first: C05's co-simulation
+                };
+                self.add_mode(ins, outs, Some(plan))?;
+            }
             Op::AddNoHeap(k) => self.add_no_heap(2 + (*k as usize % 6).min(self.n.saturating_sub(1)))?,
             Op::Fetch => self.fetch()?,
             Op::Complete { pick, written } => {
@@ -1456,6 +1579,9 @@ pub fn run_case(c: &QCase, prop: &'static str, st: &mut Stats) -> Result<(), Str
             if f.indirect_chain {
                 st.class("indirect_chain");
             }
+            if f.blocking_with_other_first > 0 {
+                st.class_n("blocking_helper_with_another_completion_first", f.blocking_with_other_first as u64);
+            }
             if f.huge_buffer {
                 st.class("buffer_longer_than_u32");
             }
@@ -1576,6 +1702,7 @@ pub fn op_strategy() -> impl Strategy<Value = Op> {
         1 => Just(Op::AvailDesc),
         1 => (0u8..10).prop_map(Op::AddBoundary),
         1 => any::<u8>().prop_map(Op::AddNoHeap),
+        2 => (prop::collection::vec(1u32..40, 0..3), prop::collection::vec(1u32..40, 0..3), any::<u16>()).prop_map(|(ins, outs, pick)| Op::Blocking { ins, outs, pick }),
         1 => Just(Op::ShouldNotify),
         1 => any::<bool>().prop_map(Op::SetDevNotify),
         1 => (0u16..=1).prop_map(Op::DevFlags),
